@@ -17,8 +17,10 @@ package fio
 
 //@ func iface (fio.ReadWriter).Read
 //@   params self b offset
+//@   requires [offset] 0 <= offset
 //@   modifies b[*]
 //@   ensures [count] 0 <= result0 && result0 <= len(b)
+//@   ensures [a-successful-read-within-the-logical-size-fills-the-buffer] result1 == nil && 0 <= offset && offset + len(b) <= self.size ==> result0 == len(b)
 //@   ensures [fs-kept] fs == old(fs)
 //@   assume  [reads-within-the-file-succeed] 0 <= offset && offset + len(b) <= self.size ==> result1 == nil
 //@   assume  [io-error-identity] !engineErr(result1) && result1 != datafile.ErrClosed && result1 != datafile.ErrInvalidCRC && result1 != datafile.ErrIncompleteChunk
@@ -58,3 +60,113 @@ package fio
 //@   trusted
 //@   ensures [io-error-identity] !engineErr(result1)
 //@   ensures [open] result1 == nil ==> result0 != nil && fresh(result0) && 0 <= result0.size && result0.size <= 35184372088832 && result0.durable == result0.size && !result0.closed && result0.writes == 0
+
+
+// ---------------------------------------------------------------------------------------------
+// The two back-ends against the one ReadWriter contract (C11, C13, C14, C20)
+// The ghost state of the interface is, for each implementation, a function of its own state:
+// ---------------------------------------------------------------------------------------------
+//@ abstraction fio.ReadWriter.size    of *fio.FileIO = self.fd.fsz
+//@ abstraction fio.ReadWriter.durable of *fio.FileIO = self.fd.fdur
+//@ abstraction fio.ReadWriter.closed  of *fio.FileIO = self.fd.fclosed
+//@ abstraction fio.ReadWriter.writes  of *fio.FileIO = self.fd.fwrites
+//@ abstraction fio.ReadWriter.size    of *fio.MMap = self.virtualSize
+// (durability of a mapping is msync's business: no abstraction, the flush clauses stay assumptions for MMap)
+//@ abstraction fio.ReadWriter.closed  of *fio.MMap = self.file.fclosed
+
+//@ pred INV_fileio(f) = f != nil && f.fd != nil && 0 <= f.fd.fsz && f.fd.fdur <= f.fd.fsz
+
+//@ func fio.NewFileIO
+//@   props C11 C14
+//@   io_effect
+//@   ensures [open] result1 == nil ==> result0 != nil && fresh(result0) && INV_fileio(result0) && result0.fd.fdur == result0.fd.fsz && !result0.fd.fclosed && result0.fd.fwrites == 0
+//@   ensures [io-error-identity] !engineErr(result1)
+//@   modifies nothing
+//@ func (*fio.FileIO).Read
+//@   props C11 C12 C14
+//@   conforms (fio.ReadWriter).Read
+//@   requires [inv] INV_fileio(fio)
+//@   modifies b[*]
+//@ func (*fio.FileIO).Write
+//@   props C11 C13 C14
+//@   conforms (fio.ReadWriter).Write
+//@   requires [inv] INV_fileio(fio)
+//@   modifies fio.fd.fsz, fio.fd.fwrites
+//@ func (*fio.FileIO).Sync
+//@   props C13 C14
+//@   conforms (fio.ReadWriter).Sync
+//@   requires [inv] INV_fileio(fio)
+//@   modifies fio.fd.fdur
+//@ func (*fio.FileIO).Close
+//@   props C13 C14 C02
+//@   conforms (fio.ReadWriter).Close
+//@   requires [inv] INV_fileio(fio)
+//@   modifies fio.fd.fdur, fio.fd.fclosed
+//@ func (*fio.FileIO).Size
+//@   props C11 C14
+//@   conforms (fio.ReadWriter).Size
+//@   requires [inv] INV_fileio(fio)
+//@   modifies nothing
+
+// memory mapping: the mapping never extends beyond the physical file (touching such a page is SIGBUS),
+// the logical size never exceeds the physical size, and an existing mapping covers [0, endOff)
+//@ pred INV_mmap(m) = m != nil && m.file != nil && 0 <= m.virtualSize && m.virtualSize <= 35184372088832 && 0 <= m.endOff && m.endOff <= 35184372088832 && len(m.activeMap) == m.endOff && (m.endOff > 0 ==> m.endOff <= m.file.fsz && arr(m.activeMap) != 0) && m.virtualSize <= m.file.fsz && m.file.fdur <= m.file.fsz && (m.endOff == 0 ==> arr(m.activeMap) == 0)
+
+//@ func (*fio.MMap).remap
+//@   props C11 C14 C20
+//@   requires [inv] INV_mmap(m) && 0 <= newBase && newBase <= 35184372088832 && 0 <= dataSize && dataSize <= 1073741824
+//@   ensures [inv] INV_mmap(m) || result != nil
+//@   ensures [covers-the-request] result == nil ==> newBase + dataSize <= m.endOff && len(m.activeMap) == m.endOff
+//@   ensures [mapping-kept-or-new] m.activeMap == old(m.activeMap) || fresh(m.activeMap) || arr(m.activeMap) == 0
+//@   ensures [logical-size-kept] m.virtualSize == old(m.virtualSize) && m.file == old(m.file) && m.file.fdur == old(m.file.fdur)
+//@   ensures [io-error-identity] !engineErr(result)
+//@   modifies m.endOff, m.activeMap, m.file.fsz
+//@ func (*fio.MMap).Read
+//@   props C11 C12 C14
+//@   content
+//@   conforms (fio.ReadWriter).Read
+//@   requires [inv] INV_mmap(m) && len(b) <= 1073741824
+//@   ensures [inv] INV_mmap(m) || result1 != nil
+//@   modifies b[*], m.endOff, m.activeMap, m.file.fsz
+//@ func (*fio.MMap).Write
+//@   props C11 C13 C14 C03
+//@   content
+//@   conforms (fio.ReadWriter).Write
+//@   requires [inv] INV_mmap(m) && len(b) <= 1073741824
+//@   ensures [inv] INV_mmap(m) || result1 != nil
+// crash consistency of the mapped back-end (C03): NewMMap takes the physical size of the file as its logical size,
+// so whenever the process can die the two must agree.  They do not: the file is extended to a multiple of 512 MiB
+// (known finding D25, see /verif/known_findings.txt)
+//@   ensures [a-killed-process-leaves-a-file-whose-physical-size-is-its-logical-size] {C03} result1 == nil ==> m.file.fsz == m.virtualSize
+//@   modifies m.endOff, m.activeMap, m.activeMap[*], m.file.fsz, m.virtualSize
+//@ func (*fio.MMap).Size
+//@   props C11 C14
+//@   conforms (fio.ReadWriter).Size
+//@   modifies nothing
+//@ func (*fio.MMap).ResetFileSize
+//@   props C20 C11 C14
+//@   requires [inv] INV_mmap(m)
+//@   ensures [inv] result == nil ==> INV_mmap(m)
+//@   ensures [physical-size-is-the-logical-size] result == nil ==> m.file.fsz == m.virtualSize && m.endOff == 0
+//@   ensures [logical-size-kept] m.virtualSize == old(m.virtualSize) && m.file == old(m.file)
+//@   ensures [io-error-identity] !engineErr(result)
+//@   modifies m.endOff, m.activeMap, m.file.fsz, m.file.fdur
+//@ func fio.NewMMap
+//@   props C11 C14 C20 C03
+//@   io_effect
+//@   ensures [a-killed-process-leaves-a-file-whose-physical-size-is-its-logical-size] {C03} result1 == nil ==> result0.file.fsz == result0.virtualSize
+//@   ensures [open] result1 == nil ==> result0 != nil && fresh(result0) && INV_mmap(result0) && fresh(result0.file) && !result0.file.fclosed
+//@   ensures [failed] result1 != nil ==> result0 == nil
+//@   ensures [io-error-identity] !engineErr(result1)
+//@   modifies nothing
+//@ func (*fio.MMap).Sync
+//@   props C13 C14
+//@   conforms (fio.ReadWriter).Sync
+//@   requires [inv] INV_mmap(m)
+//@   modifies nothing
+//@ func (*fio.MMap).Close
+//@   props C13 C14 C20
+//@   conforms (fio.ReadWriter).Close
+//@   requires [inv] INV_mmap(m)
+//@   ensures [physical-size-is-the-logical-size] result == nil ==> m.file.fsz == m.virtualSize && m.file.fclosed
+//@   modifies m.endOff, m.activeMap, m.file.fsz, m.file.fdur, m.file.fclosed
